@@ -23,7 +23,7 @@ class MachineryError(Exception):
 
 
 def workdir(name):
-    d = os.path.join(WORK, name)
+    d = os.path.join(WORK, f'{name}.{os.getpid()}')
     shutil.rmtree(d, ignore_errors=True)
     os.makedirs(d, exist_ok=True)
     return d
@@ -123,6 +123,9 @@ def judge(module, traces, tag=None, jvms=4, workers=4, heap='3g', timeout=1800, 
         fn = os.path.join(d, f'tr{ci}.ndjson')
         with open(fn, 'w', encoding='utf-8') as f:
             for t in ch:
+                bad = find_null(t)
+                if bad:
+                    raise MachineryError(f'JSON null at {bad} in a {t.get("kind")} trace (use the %null sentinel)')
                 f.write(json.dumps(t, ensure_ascii=True))
                 f.write('\n')
         files.append(fn)
@@ -198,3 +201,20 @@ def model_check(module, cfg=None, workers=16, heap='8g', timeout=3600, extra=(),
 if __name__ == '__main__':
     r = run_tlc(sys.argv[1], workers=4)
     print(r['out'][-4000:])
+
+
+def find_null(x, path=''):
+    """JSON null is not representable for TLC's Json module: report where one sits."""
+    if x is None:
+        return path or '<root>'
+    if isinstance(x, dict):
+        for k, v in x.items():
+            r = find_null(v, f'{path}.{k}')
+            if r:
+                return r
+    elif isinstance(x, (list, tuple)):
+        for i, v in enumerate(x):
+            r = find_null(v, f'{path}[{i}]')
+            if r:
+                return r
+    return None
